@@ -157,8 +157,6 @@ pub fn eval_constant(egraph: &EGraph, enode: &Expr) -> ConstValue {
         }
         // TODO: handle cast error
         a.cast(ty).ok()
-    } else if let &Max(a) | &Min(a) | &Avg(a) | &First(a) | &Last(a) = enode {
-        x(a).cloned()
     } else {
         None
     }
